@@ -1056,15 +1056,20 @@ def _c12(self):
         rp = advanced(root.value)
         rv = [Fraction(x) for x in root.value.velocity] if root.value.velocity is not None else [Fraction(0)] * dim
         sumv = [Fraction(0)] * dim
-        off = [Fraction(0)] * dim
+        # barycentre of the point masses with nearest images taken among the point masses themselves (relative to the first
+        # one: a molecule is much smaller than half the box), then the nearest image of (root - barycentre).  Taking nearest
+        # images relative to the root instead would not see a root displaced by exactly half a box length.
+        ref = advanced(root.children[0].value)
+        bary = list(ref)
         for leaf in root.children:
             w = Fraction(leaf.weight)
             if leaf.value.velocity is not None:
                 sumv = [a + w * Fraction(v) for a, v in zip(sumv, leaf.value.velocity)]
             lp = advanced(leaf.value)
             for d in range(dim):
-                sep = (lp[d] - rp[d] + Ls[d] / 2) % Ls[d] - Ls[d] / 2
-                off[d] += w * sep
+                sep = (lp[d] - ref[d] + Ls[d] / 2) % Ls[d] - Ls[d] / 2
+                bary[d] += w * sep
+        off = [(rp[d] - bary[d] + Ls[d] / 2) % Ls[d] - Ls[d] / 2 for d in range(dim)]
         speed = self.speed or Fraction(1)
         rvres = max(abs(a - b) for a, b in zip(rv, sumv)) / speed
         bres = max(abs(off[d]) / Ls[d] for d in range(dim))
